@@ -393,6 +393,73 @@ func ruleR14(p *Prog) []Ob {
 		}
 		obs = append(obs, ob)
 	}
+	// (f) the notifier starts at the log's own next offset, whatever the mode of the log
+	{
+		ob := Ob{Rule: "R14", Inst: "f:notifier-starts-at-next-offset", Props: props, Pos: "-", Nontrivial: true}
+		n := 0
+		var bad []string
+		for _, fn := range p.Funcs {
+			if !srcFunc(fn) || funcPkgPath(fn) == pkgNotify {
+				continue
+			}
+			for _, b := range fn.Blocks {
+				for _, ins := range b.Instrs {
+					c, ok := ins.(*ssa.Call)
+					if !ok || len(c.Call.Args) != 1 {
+						continue
+					}
+					g := c.Common().StaticCallee()
+					if g == nil || funcPkgPath(g) != pkgNotify || g.Signature.Recv() != nil || g.Signature.Results().Len() != 1 {
+						continue
+					}
+					if pt, ok := g.Signature.Results().At(0).Type().(*types.Pointer); !ok || namedOf(pt.Elem()) != r.NotifyOffset {
+						continue
+					}
+					n++
+					if ob.Pos == "-" {
+						ob.Pos = p.at(c)
+					}
+					seen := map[ssa.Value]bool{}
+					var fromNext func(v ssa.Value, d int) bool
+					fromNext = func(v ssa.Value, d int) bool {
+						if v == nil || seen[v] || d > 6 {
+							return false
+						}
+						seen[v] = true
+						switch x := v.(type) {
+						case *ssa.Extract:
+							if cc, ok := x.Tuple.(*ssa.Call); ok && x.Index == 0 {
+								if cc.Common().IsInvoke() && cc.Common().Method.Name() == "NextOffset" {
+									return true
+								}
+							}
+						case *ssa.Phi:
+							for _, e := range x.Edges {
+								if !fromNext(e, d+1) {
+									return false
+								}
+							}
+							return len(x.Edges) > 0
+						}
+						return false
+					}
+					if !fromNext(c.Call.Args[0], 0) {
+						bad = append(bad, fmt.Sprintf("%s: %s creates the notifier from %s, not from the wrapped log's NextOffset", p.at(c), funcLabel(fn), c.Call.Args[0].String()))
+					}
+				}
+			}
+		}
+		switch {
+		case len(bad) > 0:
+			sort.Strings(bad)
+			ob.Status, ob.Msg, ob.Path = Violated, "a notifier that does not start at the log's next offset lets a blocking consume at or past the end return at once with nothing (or park although there is something)", bad
+		case n == 0:
+			ob.Status, ob.Msg = Undecided, "no construction of the notifier found outside its package"
+		default:
+			ob.Status, ob.Msg = Discharged, fmt.Sprintf("%d construction(s) of the notifier, each from the wrapped log's NextOffset", n)
+		}
+		obs = append(obs, ob)
+	}
 	if nWrappers == 0 {
 		obs = append(obs, Ob{Rule: "R14", Inst: "a:wrappers", Props: props, Pos: "-", Status: Undecided, Msg: "no blocking wrapper (struct embedding a log with a *notify.Offset field) with a Publish method found"})
 	}
